@@ -282,4 +282,48 @@ theorem doAwaitDataResponse_walk (c c' : Ctx) (now : Int) (a : Nat) (d : UseData
   · rcases ite_inv h with ⟨_, h⟩ | ⟨_, h⟩ <;> cases h
   · rcases ite_inv h with ⟨_, h⟩ | ⟨_, h⟩ <;> cases h
 
+/-! ## One whole poll while the station holds the token -/
+
+/-- The station holds the token and is in a message cycle: `UseToken` or `AwaitDataResponse`. -/
+def Holding (s : Station) : Prop := (∃ d fcd, s.st = .useToken d fcd) ∨ (∃ a d, s.st = .awaitData a d)
+
+theorem holding_wake (s : Station) (h : Holding s) : s.wake = s := by
+  unfold Station.wake
+  rcases h with ⟨d, fcd, h⟩ | ⟨a, d, h⟩ <;> rw [h]
+
+/-- One whole poll that starts in `UseToken` / `AwaitDataResponse` (any bytes, any time, any scripts):
+its callbacks follow the turn from `next_application` before the poll to `next_application` after it. -/
+theorem poll_walk (s : Station) (apps : Apps) (now : Int) (phy : Bool) (rx : Bytes) (c' : Ctx)
+    (hh : Holding s) (h : s.poll apps now phy rx = .ok c') :
+    walk apps.length s.nextApp c'.calls = some c'.s.nextApp ∧ c'.apps.length = apps.length := by
+  unfold Station.poll pollInner at h
+  cases hon : s.online with
+  | false =>
+    simp only [hon] at h
+    cases hst : s.st <;> simp only [hst] at h <;> cases h
+    exact ⟨rfl, rfl⟩
+  | true =>
+    simp only [hon] at h
+    obtain ⟨c1, hs, h⟩ := bind_ok_inv h
+    have := pollStart_inv _ _ hs
+    subst this
+    simp only [holding_wake s hh] at h
+    rcases ite_inv h with ⟨_, h⟩ | ⟨_, h⟩
+    · cases h; exact ⟨by simp [walk, upd, markBA_nextApp], rfl⟩
+    · unfold dispatch at h
+      simp only [upd] at h
+      rcases hh with ⟨d, fcd, hst⟩ | ⟨a, d, hst⟩
+      · have hst' : (checkBusActivity s now rx.length).st = .useToken d fcd := by rw [checkBA_st]; exact hst
+        rw [hst'] at h
+        simp only at h
+        obtain ⟨new, hc, hw, hl⟩ := doUseToken_walk _ c' now d fcd hst' h
+        simp only [List.nil_append, checkBA_nextApp] at hc hw hl
+        rw [hc]; exact ⟨hw, hl⟩
+      · have hst' : (checkBusActivity s now rx.length).st = .awaitData a d := by rw [checkBA_st]; exact hst
+        rw [hst'] at h
+        simp only at h
+        obtain ⟨new, hc, hw, hl⟩ := doAwaitDataResponse_walk _ c' now a d hst' h
+        simp only [List.nil_append, checkBA_nextApp] at hc hw hl
+        rw [hc]; exact ⟨hw, hl⟩
+
 end PV
